@@ -1,6 +1,6 @@
 (* C09 run_case: model + spec oracles for the harness.
    L [I 0; pag]              -> L [graph m; structure_ok]                       m = pag_to_mag_model pag
-   L [I 1; pag; mag0]        -> L [graph m; L verdicts; L [pag_hypsb pag; rounds_ok_b pag]]   verdicts of m against pag and the source MAG,
+   L [I 1; pag; mag0]        -> L [graph m; L verdicts; L [pag_hypsb pag; rounds_ok_small_b pag]]   verdicts of m against pag and the source MAG,
                                                                                  and the hypotheses of p2m_shape_all_sizes on pag
    L [I 2; pag; mag0; m]     -> L [L verdicts]                                  verdicts of a GIVEN graph m (the implementation's result)
    L [I 3; mag0]             -> L [valid_mag_spec mag0; graph (pag_of_mag mag0)]
@@ -19,7 +19,7 @@ Definition run_case (s : sx) : sx :=
   match sx_nat (sx_nth s 0) with
   | 0 => let m := pag_to_mag_model g in L [of_graph m; of_bool (structure_ok g m)]
   | 1 => let m := pag_to_mag_model g in
-         L [of_graph m; verdicts g (sx_graph (sx_nth s 2)) m; L [of_bool (pag_hypsb g); of_bool (rounds_ok_b g)]]
+         L [of_graph m; verdicts g (sx_graph (sx_nth s 2)) m; L [of_bool (pag_hypsb g); of_bool (rounds_ok_small_b g)]]
   | 2 => L [verdicts g (sx_graph (sx_nth s 2)) (sx_graph (sx_nth s 3))]
   | 3 => L [of_bool (valid_mag_spec g); of_graph (pag_of_mag g)]
   | _ => L [of_bool (structure_ok g (sx_graph (sx_nth s 2)))]
